@@ -6,7 +6,7 @@ import re
 VERIF = os.path.dirname(os.path.dirname(os.path.abspath(__file__)))
 
 
-ROUNDS = """Seven rounds of independent seeding (sub-agents in scratch worktrees of /repo; they see the twenty property texts, the list of
+ROUNDS = """Eight rounds of independent seeding (sub-agents in scratch worktrees of /repo; they see the twenty property texts, the list of
 earlier changes so that nothing is repeated, and nothing of /verif): `Cnn-A/B` and `Cnn-A2/B2` one agent per property (rounds 1, 2);
 `K01..K12` one agent per component (round 3); `S01..S10` per component with the instruction to damage what the recent `fix:` commits
 established without reverting them (round 4); `R01..R12` per property again, for the properties with the fewest changes so far
@@ -41,6 +41,12 @@ restarted over the same data in mid-history (Badger closed and reopened: `reopen
 afterwards (second DeleteWatcher) and the catch-up of a whole wrapped event cache of an odd size (C05); an Event written early in a
 wall-clock second (C17); a burst of thousands of revisions right before a take-over (C15); the regenerated fact that the peer
 /status handler reads its revision after the leader flag (C18). All 20 are caught now.
+Round 8 (`N01..N06`, by mechanism again: metrics and logging on request paths, concurrency primitives, pagination / limits / count,
+compaction bookkeeping, start-up / shutdown / leader-change sequencing, key handling outside the coder; 4 of 12 missed at first) ->
+skipped-prefix configurations whose string order and directory order differ (`/a`, `/a-b`; C07); a page as large as newer
+kube-apiservers ask for over a directory slightly larger (limit 10000 / 10020; C03); exactly as many streamed batches as the stream's
+buffer holds with a consumer that starts late (the terminator must still come; C13); a take-over by a node that had served reads as
+a follower (`campaign followed=`; C15). All 12 are caught now.
 The table is regenerated from the `result.json` files.
 
 """
